@@ -107,7 +107,9 @@ def solve_mp(spec, p, height, kw):
             stream.error = e
 
     world = mpsim.World(Choices(seed=spec.get("seed", 0)), {"template": "jitter", "faults": {}, "start": {}, "opcost": 1}, run_worker, {})
-    parent = MultiprocessingSolver(solvers, log_level="ERROR")
+    with mpsim.detached():
+        parent = MultiprocessingSolver(solvers, log_level="ERROR")
+    mpsim.adopt(world, parent)
     with mpsim.patched(world):
         if spec.get("op") == "max":
             r = parent.maximize(spec["objective"])
